@@ -7,7 +7,7 @@
     universally quantified functions; their encoders only have to satisfy the round-trip hypotheses
     written in each statement (instantiated at the end of the file). *)
 From Coq Require Import List ZArith String.
-From Thunder Require Import Lib.Json Args.Model Args.Spec Args.Proofs.
+From Thunder Require Import Lib.Json Args.Model Args.Spec Args.Proofs Args.ProofsReject.
 Import ListNotations.
 Local Open Scope Z_scope.
 
@@ -51,6 +51,97 @@ Theorem every_rendering_parses :
     renders b64 tdec xdec t v j -> parse b64 tdec xdec t j = Ok v.
 Proof. exact Proofs.renders_parse. Qed.
 Print Assumptions every_rendering_parses.
+
+(** End to end for one field: Parse (defaults, argsToJson) followed by the ParseArguments call of
+    PrepareQuery hands the resolver exactly the struct that was written as literals ... *)
+Theorem literal_request_echoes :
+  forall (b64 : string -> option (list Z)) (tdec : string -> option tval) (xdec : string -> option string)
+         (b64e : list Z -> string) (tenc : tval -> string) (xenc : string -> string)
+         (time_ok : tval -> Prop) (text_ok : string -> Prop),
+    (forall b, bytes_ok b -> b64 (b64e b) = Some b) ->
+    (forall x, time_ok x -> tdec (tenc x) = Some x) ->
+    (forall s, text_ok s -> xdec (xenc s) = Some s) ->
+    forall nullvar fs vs args defs vars vars',
+      wf_ty (TStruct fs) -> sendable time_ok text_ok (TStruct fs) (GStruct vs) ->
+      lit_of b64e tenc xenc nullvar (TStruct fs) (GStruct vs) = LObj args ->
+      apply_defaults defs vars vars = Ok vars' ->
+      (lookup nullvar vars' = None \/ lookup nullvar vars' = Some VNull) ->
+      run_args b64 tdec xdec (TStruct fs) defs vars args = Ok (GStruct vs).
+Proof. exact ProofsReject.run_args_literal. Qed.
+Print Assumptions literal_request_echoes.
+
+(** ... and so does any request - whatever mix of literals, variables and defaults - whose argument
+    list converts to a rendering of the value. *)
+Theorem rendering_request_echoes :
+  forall b64 tdec xdec t defs vars vars' args j v,
+    apply_defaults defs vars vars = Ok vars' ->
+    args_to_json vars' args = Ok j -> renders b64 tdec xdec t v j ->
+    run_args b64 tdec xdec t defs vars args = Ok v.
+Proof. exact ProofsReject.run_args_rendering. Qed.
+Print Assumptions rendering_request_echoes.
+
+(** Default rule (parser.go 382-422): with distinct variable names, a variable's default is what the
+    selection set sees exactly when the client supplied no non-null value for it; a supplied non-null
+    value is kept; variables without a default are untouched; a default can only sit on a nullable
+    variable. *)
+Theorem default_rule :
+  forall defs vars vars',
+    NoDup (map vd_name defs) -> apply_defaults defs vars vars = Ok vars' ->
+    (forall d l, In d defs -> vd_default d = Some l ->
+       vd_nonnull d = false /\
+       (non_null (lookup (vd_name d) vars) = true -> lookup (vd_name d) vars' = lookup (vd_name d) vars) /\
+       (non_null (lookup (vd_name d) vars) = false ->
+          exists v, vtj [] l = Ok v /\ lookup (vd_name d) vars' = Some v)) /\
+    (forall x, (forall d, In d defs -> vd_name d = x -> vd_default d = None) -> lookup x vars' = lookup x vars).
+Proof. exact ProofsReject.default_rule. Qed.
+Print Assumptions default_rule.
+
+(** The rule as coded: a default on a required variable is a client error raised by Parse. *)
+Theorem default_on_required_rejected :
+  forall defs orig acc d l,
+    In d defs -> vd_nonnull d = true -> vd_default d = Some l ->
+    apply_defaults defs orig acc = Err EParse.
+Proof. exact ProofsReject.default_on_required_rejected. Qed.
+Print Assumptions default_on_required_rejected.
+
+(** Every kind mismatch - at the top or at any position inside lists and input objects, including null
+    or a missing member where the type is not a pointer / optional - is refused by PrepareQuery. *)
+Theorem kind_mismatch_rejected :
+  forall b64 tdec xdec (t : ty) (j : jv), mismatch t j = true -> parse b64 tdec xdec t j = Err EArgs.
+Proof. exact ProofsReject.mismatch_rejected. Qed.
+Print Assumptions kind_mismatch_rejected.
+
+Theorem missing_required_rejected :
+  forall b64 tdec xdec fs o n t',
+    In (n, t') fs -> required t' = true ->
+    (lookup n o = None \/ lookup n o = Some VNull) ->
+    parse b64 tdec xdec (TStruct fs) (VObj o) = Err EArgs.
+Proof. exact ProofsReject.missing_required_rejected. Qed.
+Print Assumptions missing_required_rejected.
+
+Theorem null_in_list_rejected :
+  forall b64 tdec xdec t' l,
+    required t' = true -> In VNull l -> parse b64 tdec xdec (TList t') (VArr l) = Err EArgs.
+Proof. exact ProofsReject.null_in_list_rejected. Qed.
+Print Assumptions null_in_list_rejected.
+
+(** Optional arguments left out (or sent as null) arrive as nil (pointer) or as the zero value
+    (`graphql:",optional"`), whatever else the argument list holds. *)
+Theorem missing_optional_nil_or_zero :
+  forall b64 tdec xdec fs o v n t',
+    NoDup (map fst fs) -> parse b64 tdec xdec (TStruct fs) (VObj o) = Ok v -> In (n, t') fs ->
+    (lookup n o = None \/ lookup n o = Some VNull) ->
+    exists vs, v = GStruct vs /\
+      (forall t2, t' = TPtr t2 -> lookup n vs = Some GNil) /\
+      (forall t2, t' = TOpt t2 -> lookup n vs = Some (zero t2)).
+Proof. exact ProofsReject.missing_optional_nil_or_zero. Qed.
+Print Assumptions missing_optional_nil_or_zero.
+
+(** The argument parsers fail with one error class only (the client error PrepareQuery wraps). *)
+Theorem parse_errors_are_client_errors :
+  forall b64 tdec xdec t j e, parse b64 tdec xdec t j = Err e -> e = EArgs.
+Proof. exact ProofsReject.parse_err_args. Qed.
+Print Assumptions parse_errors_are_client_errors.
 
 (** Rejections happen in the prepare phase: in every run of the two-phase machine (any number of
     resolver steps in any order), a request whose preparation fails - a literal that does not convert,
